@@ -45,7 +45,7 @@ Definition build_orderbook (name node : string) (full_exec : bool) (rg : option 
   obind rg (fun rg => Some (orderbook name node full_exec rg orders)).
 
 (* comparison with the implementation's stand-alone problem *)
-From EAO Require Import Cert Corr.
+From EAO Require Import Cert Corr GridProofs.
 Definition asset_case (model : option aprob) (impl_ok : bool) (P : lp) (mp : list mrow) : list bool :=
   match model with
   | None => [negb impl_ok; true; true; true; true; true]      (* both reject *)
@@ -113,6 +113,12 @@ Definition c19_window_case (r : option rgrid) (impl_ok : bool) (I : list nat) (t
                 | None, None => true
                 | Some a, Some b => list_eqb list_eqb_nat a b
                 | _, _ => false end ]
+  end.
+(* a restricted grid restricted once more (GridProofs.restrict_rg): indices in the original grid and time points *)
+Definition c19_nested_case (r : option rgrid) (s e : Z) (I : list nat) (tp : list Z) : list bool :=
+  match r with
+  | None => [false; false]
+  | Some r => let r2 := GridProofs.restrict_rg r s e in [list_eqb_nat (rg_I r2) I; list_eqb_Z (rg_tp r2) tp]
   end.
 Definition oq_close (a b : option Q) : bool :=
   match a, b with Some x, Some y => qclose tol x y | None, None => true | _, _ => false end.
